@@ -21,14 +21,14 @@ import (
 type c26Op struct {
 	// K: send | skip | ack | adv | timer | recv | retry | dropkeys | validate | maxackdelay | util
 	K       string     `json:"k"`
-	Dt      int64      `json:"dt,omitempty"`   // microseconds the clock moves before the op
-	Sp      int        `json:"sp,omitempty"`   // number space 0..2 (send, ack)
-	Size    int        `json:"size,omitempty"` // send: packet size; recv: datagram size
-	N       int        `json:"n,omitempty"`    // send: burst of N packets (each consults sendLimit)
-	AE      bool       `json:"ae,omitempty"`   // send: ack-eliciting (implies in flight)
-	IF      bool       `json:"if,omitempty"`   // send: in flight although not ack-eliciting (PADDING)
-	Back    int64      `json:"back,omitempty"` // ack: first range ends at nextNum-Back (negative: beyond what was sent)
-	Rng     [][2]int64 `json:"rng,omitempty"`  // ack: {length >= 1, distance >= 1 to the next (lower) range}
+	Dt      int64      `json:"dt,omitempty"`      // microseconds the clock moves before the op
+	Sp      int        `json:"sp,omitempty"`      // number space 0..2 (send, ack)
+	Size    int        `json:"size,omitempty"`    // send: packet size; recv: datagram size
+	N       int        `json:"n,omitempty"`       // send: burst of N packets (each consults sendLimit)
+	AE      bool       `json:"ae,omitempty"`      // send: ack-eliciting (implies in flight)
+	IF      bool       `json:"if,omitempty"`      // send: in flight although not ack-eliciting (PADDING)
+	Back    int64      `json:"back,omitempty"`    // ack: first range ends at nextNum-Back (negative: beyond what was sent)
+	Rng     [][2]int64 `json:"rng,omitempty"`     // ack: {length >= 1, distance >= 1 to the next (lower) range}
 	Skipped bool       `json:"skipped,omitempty"` // ack: do not cut skipped numbers out of the ranges
 	Delay   int64      `json:"delay,omitempty"`   // ack: ack delay in microseconds; maxackdelay: milliseconds
 	V       bool       `json:"v,omitempty"`       // util: value
